@@ -126,9 +126,9 @@ fn observe(out: &mut Out, rng: &mut Rng, op: u8, b2: Option<u8>, fixed: Option<[
     while edges < 3000 {
         let before = s.m.verif_state();
         // the word being left selects the next (first or second) opcode byte: a halting byte stops the machine there
-        let at_fetch = {
+        let (at_fetch, ir_reset) = {
             let sg = s.m.signals();
-            sg.mac0() && sg.mac2()
+            (sg.mac0() && sg.mac2(), sg.mac1() && sg.mac2())
         };
         s.m.raw_mut().trigger_clock_edge();
         edges += 1;
@@ -143,6 +143,14 @@ fn observe(out: &mut Out, rng: &mut Rng, op: u8, b2: Option<u8>, fixed: Option<[
         }
         if st.address / 32 != (st.instruction as usize) / 16 {
             escape = true;
+        }
+        // the instruction register decides which routine runs: it is reset to NOP (0x02) by a word that selects the
+        // interrupt entry (MAC1 & MAC2), loaded from the byte just read by a word that selects the next opcode byte
+        // (MAC0 & MAC2), and left alone by every other word; anything else leaves the routine of the fetched opcode
+        let expected_ir = if ir_reset { 0x02 } else if at_fetch { before.last_bus_read } else { before.instruction };
+        if st.instruction != expected_ir {
+            escape = true;
+            out.count("instruction-register-not-as-the-control-word-says");
         }
         if s.m.is_instruction_done() {
             completed = true;
@@ -500,6 +508,7 @@ pub fn run_c15(out: &mut Out, seed: u64, thorough: bool) {
             run_line(out, &mut s, "new");
             run_line(out, &mut s, &format!("load 16 255 {}", hexs(&first)));
             run_line(out, &mut s, &format!("edges {}", r));
+            run_line(out, &mut s, "spec.contkey");
             // the property as a relation on the real machine: reloaded here vs loaded into a new machine, edge by edge
             run_line(out, &mut s, &format!("{} 16 255 {} 60", if (case / 2) % 3 == 1 { "spec.resetasm" } else { "spec.reload" }, hexs(&second)));
             if r % 3 == 0 {
